@@ -239,6 +239,11 @@ class Verdict:
             self.inconclusive.append("watchdog fired (%ss) on case %s" % (res['timeout'], json.dumps(case, default=_jd)[:300]))
             return
         if 'crash' in res:
+            if res['crash'].get('signal') == 9 and not (res['crash'].get('stderr') or '').strip():
+                # SIGKILL with nothing on stderr cannot come from the program under test (no sanitizer report, no abort message): the
+                # kernel's out-of-memory killer or an operator ended the worker.  Inconclusive for this case, like a watchdog expiry.
+                self.inconclusive.append("watchdog: worker killed by SIGKILL from outside (memory pressure?) on case %s" % json.dumps(case, default=_jd)[:300])
+                return
             mech = crash_mech(case, res) if crash_mech else 'process-death'
             self.violation(mech, dict(case=case, crash=res['crash']))
             return
